@@ -1,10 +1,10 @@
 #!/bin/bash
-# usage: tools/run_all.sh [tier] [seed...]   - runs every registered check, one line per check
+# usage: [IDS="C17 C18 ..."] tools/run_all.sh [tier] [seed...]   - runs every registered check (or those in IDS, in that order), one line per check
 cd "$(dirname "$0")/.."
 tier=${1:-quick}; shift
 seeds=${@:-1}
 for sd in $seeds; do
-  for c in $(python3 -c "import json; print(' '.join(c['property_id'] for c in json.load(open('MANIFEST.json'))['checks']))"); do
+  for c in ${IDS:-$(python3 -c "import json; print(' '.join(c['property_id'] for c in json.load(open('MANIFEST.json'))['checks']))")}; do
     out=$(VERIF_SEED=$sd ./check $c --tier $tier 2>&1); rc=$?
     echo "seed=$sd rc=$rc $(echo "$out" | grep -E "^$c tier" | tail -1) $(echo "$out" | grep -cE '^KNOWN-FINDING') known-lines"
     if [ $rc -ne 0 ]; then echo "$out" | grep -E "VIOLATION|HARNESS|Error" | head -5 | cut -c1-300; fi
